@@ -142,13 +142,20 @@ def applyFun (f : UFun) (ops : List Units) : Option (Units × Bool) :=
   | .div, [a, b] => some (div a b, false)
   | _, _ => none
 
+/-- `UNIT_OPERATIONS[operator](*operands) if operator in UNIT_OPERATIONS else {}` -/
+def dispatch (op : String) (un : List Units) : Option (Units × Bool) :=
+  match opFun op with
+  | some f => applyFun f un
+  | none => some ([], false)
+
 /-- `operate_with_units(operator, *operands)`; `none` = the call raises -/
-def operate (defs : Defs) (op : String) (ops : List Units) : Option (Units × Bool) := do
-  let un ← ops.mapM (unpack defs)
-  let (r, w) ← match opFun op with
-    | some f => applyFun f un
-    | none => some ([], false)
-  pure (packOr defs (filterZero r), w)
+def operate (defs : Defs) (op : String) (ops : List Units) : Option (Units × Bool) :=
+  match ops.mapM (unpack defs) with
+  | none => none
+  | some un =>
+    match dispatch op un with
+    | none => none
+    | some rw => some (packOr defs (filterZero rw.1), rw.2)
 
 /-! ### unit expression trees (what `propagate_units` sees) -/
 
